@@ -751,6 +751,12 @@ def run(ctx):
     from . import c05, taint as T
     r14 = ctx.rule("C06-R14", "sums and products of declared numbers in the AIGER parsers cannot wrap: each is bounded by a guard or by the limit handed to the token that read the number (shared with C05-R2)", floor=20)
     c05.run_r2(ctx, r14, T.Taint(ctx.facts), only=lambda f: f.crate == "flussab_aiger")
+    # R15: a symbol names entry number i of a section; i must lie below the count the header declares for that very section,
+    # and a section declared empty has no symbols at all (an index limit of `count.saturating_sub(1)` accepts i = 0 for it):
+    # the symbol table rows of C03-R3 (prefix, target, tested count = limiting count), run here too
+    from .c03 import run_r3 as c03_r3
+    r15 = ctx.rule("C06-R15", "AIGER symbols: the index is limited by the count of its own section, and a section declared empty admits none (shared with C03-R3)", floor=20)
+    c03_r3(ctx, r15)
     r11 = ctx.rule("C06-R11", "the declared variable count is capped at the literal type's maximum in all three DIMACS header parsers", floor=3)
     run_r11(ctx, r11)
     r10 = ctx.rule("C06-R10", "justice literals are filed under a property only while it holds fewer than its declared number (test of the current index dominates the push)", floor=2)
